@@ -442,9 +442,66 @@ func init() {
 				c.Count("hier-termination-only(map-order dependent)")
 			}
 		}
+		// (c') subject priority with a domain column: the depth of a rule's subject is its depth
+		// in the rule's OWN domain.  Per domain a random forest (at most one parent per name, no
+		// cycle: the result does not depend on Go's map order), rules of both domains interleaved.
+		nd := 60
+		if c.Thorough() {
+			nd = 1500
+		}
+		names := []string{"staff", "dev", "carol", "dan", "eve"}
+		for i := 0; i < nd; i++ {
+			var gs, ps [][]string
+			for _, dom := range []string{"d1", "d2"} {
+				perm := c.Rng.Perm(len(names))
+				// parent of perm[k] is some perm[j], j < k, or none: acyclic, single parent
+				for k := 1; k < len(perm); k++ {
+					if c.Rng.Intn(3) > 0 {
+						gs = append(gs, []string{names[perm[k]], names[perm[c.Rng.Intn(k)]], dom})
+					}
+				}
+				for _, nm := range names {
+					if c.Rng.Intn(4) > 0 {
+						ps = append(ps, []string{nm, dom, "data1", "read", []string{"allow", "deny"}[c.Rng.Intn(2)]})
+					}
+				}
+			}
+			c.Rng.Shuffle(len(ps), func(a, b int) { ps[a], ps[b] = ps[b], ps[a] })
+			c.Rng.Shuffle(len(gs), func(a, b int) { gs[a], gs[b] = gs[b], gs[a] })
+			id := fmt.Sprintf("c07.hierdom.%d", i)
+			mm, _ := model.NewModelFromString(c07SubjDomModel)
+			a := newRecAdapter()
+			for _, g := range gs {
+				a.Content = append(a.Content, prule{"g", g})
+			}
+			for _, p := range ps {
+				a.Content = append(a.Content, prule{"p", p})
+			}
+			got := "err"
+			if e, err := casbin.NewEnforcer(mm, a); err == nil {
+				pol, _ := e.GetPolicy()
+				got = rulesKey(pol)
+			}
+			c.Case(id, fmt.Sprintf("hier %s %s 1", QLL(gs), QLL(ps)))
+			c.Obs(id, "hier", got)
+			c.NonTrivial(id)
+			c.Count("hier-domain")
+		}
 		c07Probes(c)
 	})
 }
+
+const c07SubjDomModel = `[request_definition]
+r = sub, dom, obj, act
+[policy_definition]
+p = sub, dom, obj, act, eft
+[role_definition]
+g = _, _, _
+[policy_effect]
+e = subjectPriority(p_eft) || deny
+[matchers]
+m = g(r.sub, p.sub, r.dom) && r.dom == p.dom && r.obj == p.obj && r.act == p.act
+`
 
 // F11 (not repaired): UpdatePolicy that changes the priority keeps the slot.
 func c07Probes(c *Ctx) {
